@@ -1,4 +1,5 @@
 """Decoder-side checks: C01, C02 (more in this file as they are built)."""
+import os
 import random
 
 from common import MachineryError, seed
@@ -588,12 +589,32 @@ def check_C18(tier):
 # C16 - index symbols: base-16 positional code
 # --------------------------------------------------------------------------
 
+def index_code_inductive(rep):
+    """For ALL naturals (no bound on n): spec/apalache/IndexAbs.tla - the digit-by-digit writer with the decoder's
+    running value beside it; n0 = rem * w + val is inductive over the unbounded integers, so decoding the finished
+    code gives n, and zero padding does not change it.  Negative configuration: a zero digit that does not
+    advance the weight (the slip of seeded change C16_r3A)."""
+    from common import SPEC_DIR, scratch, apalache_obligations
+    src = open(os.path.join(SPEC_DIR, "apalache", "IndexAbs.tla")).read()
+    neg = src.replace("MODULE IndexAbs", "MODULE IndexAbsNeg").replace("/\\ w' = Base * w\n              /\\ rem' = rem \\div Base",
+                                                                     "/\\ w' = IF d = 0 THEN w ELSE Base * w\n              /\\ rem' = rem \\div Base")
+    if neg.count("IF d = 0") != 1:
+        raise MachineryError("IndexAbs negative configuration: substitution did not apply")
+    runs = [("base case Init => IndInv (all n)", "IndexAbs", ["--init=Init", "--inv=IndInv", "--length=0"], True),
+            ("inductive step IndInv /\\ Next => IndInv'", "IndexAbs", ["--init=IndInit", "--inv=IndInv", "--length=1"], True),
+            ("IndInv => (finished => decoded value = n)", "IndexAbs", ["--init=IndInit", "--inv=RoundTrip", "--length=0"], True),
+            ("negative: a zero digit that does not advance the weight is refuted", "IndexAbsNeg",
+             ["--init=IndInit", "--inv=IndInv", "--length=1"], False)]
+    apalache_obligations(rep, scratch("apa_idx_"), {"IndexAbs": src, "IndexAbsNeg": neg}, runs, "apalache_index_code_all_naturals")
+
+
 def check_C16(tier):
     rep = Report("C16", tier)
     quick = tier == "quick"
     rep.notes["rule"] = ("constant level: all n < 16^3 and all symbol triples (ConstChecks); binding through the public "
                          "API: decoder on chains with every index-symbol tuple after ring / branch symbols, encoder on "
                          "macrocycles and long branches for every n; non-trivial = index value > 0")
+    index_code_inductive(rep)
     bad = const_checks(rep, impl=True)
     for f in bad:
         if "ImplIndex" in f or "A0" in f:
